@@ -213,31 +213,37 @@ func matchDiags(d diag.Diagnostics, exp []expDiag, exactCounts bool) string {
 	e := append([]expDiag{}, exp...)
 	var unmatched []string
 	// Paths below an embedded message are only matched by their trailing element, which can be
-	// ambiguous; the wording (missing / convert) is used as a tie-breaker in a first pass only.
-	agrees := func(detail string, x expDiag) bool {
-		low := strings.ToLower(detail)
-		if strings.HasPrefix(x.what, "missing") {
-			return strings.Contains(low, "missing")
-		}
-		return strings.Contains(low, "convert")
-	}
-	// expectations with a fixed full path are exact and are served first
+	// ambiguous, so the diagnostics are assigned by bipartite matching: first every expectation
+	// gets one diagnostic of its own (Kuhn's algorithm), then the remaining diagnostics go to
+	// any expectation that still has capacity (one per reached site).
 	sort.SliceStable(e, func(i, j int) bool { return e[i].full != "" && e[j].full == "" })
-	rest := details[:0:0]
-	for _, det := range details {
-		found := false
-		for i := range e {
-			if e[i].used < e[i].max && names(det, e[i]) && agrees(det, e[i]) {
-				e[i].used++
-				found = true
-				break
+	owner := make([]int, len(details)) // detail -> expectation
+	for i := range owner {
+		owner[i] = -1
+	}
+	var try func(x int, seen []bool) bool
+	try = func(x int, seen []bool) bool {
+		for di, det := range details {
+			if seen[di] || !names(det, e[x]) {
+				continue
+			}
+			seen[di] = true
+			if owner[di] < 0 || try(owner[di], seen) {
+				owner[di] = x
+				return true
 			}
 		}
-		if !found {
-			rest = append(rest, det)
+		return false
+	}
+	for x := range e {
+		if try(x, make([]bool, len(details))) {
+			e[x].used = 1
 		}
 	}
-	for _, det := range rest {
+	for di, det := range details {
+		if owner[di] >= 0 {
+			continue
+		}
 		found := false
 		for i := range e {
 			if e[i].used < e[i].max && names(det, e[i]) {
@@ -336,6 +342,11 @@ func expectWrites(b *MsgB, sv reflect.Value, rem *remTree, out *[]expDiag) {
 			continue
 		}
 		if ab.UnderNilEmbed(sv) {
+			// a message held by value is still written (from its zero value); everything else below a
+			// nil embedded parent counts as unset
+			if ab.A.Card == "" && !ab.A.Pointer && ab.A.Oneof == "" {
+				expectWrites(ab.Sub, reflect.Zero(ab.Typ), sub, out)
+			}
 			continue
 		}
 		v, ok := ab.Get(sv)
